@@ -1,9 +1,15 @@
-/- Obligations over the regenerated labeller tables (written by harness/extract_c15.py: one per labeller the
-   live module exports).  With `labeller_reindexes`, `labeller_all_labelled`, `labeller_commutes`,
-   `labeller_size` of Props/C15.lean each `wf_` obligation makes those theorems statements about that
-   labeller as it is coded now; the `edges_` obligations (labellers returning a labelled graph) feed
-   `labeller_output_wf`. -/
+/- Obligations over the regenerated tables (written by harness/extract_c15.py).
+   * `wf_` / `edges_`: one per labeller the live module exports.  With `labeller_reindexes`,
+     `labeller_all_labelled`, `labeller_commutes`, `labeller_size`, `labeller_masks`, `labeller_label_points`,
+     `labeller_edges` of Props/C15*.lean each makes those theorems statements about that labeller as it is coded
+     now; the `edges_` obligations (labellers returning a labelled graph) feed `labeller_output_wf`.
+   * `res_`: the resolution row of every labeller (what it does per input kind and per `return_mapping`, probed on
+     the live function) equals what the model (`LabFunc.call`, `relabel`) computes for it.
+   * `orderSites_ok`, `labScan_ok`: the source scans (no set-iteration order reaches an output; no labeller looks at
+     a coordinate, each validates exactly the size of its table). -/
 import MenpoModel.Generated.C15Labellers
+import MenpoModel.Generated.C15Resolution
+import MenpoModel.Generated.C15Scan
 import MenpoModel.Props.C15
 
 namespace MenpoModel.C15.GenProps
@@ -70,8 +76,96 @@ theorem edges_pose_stickmen_12_to_pose_stickmen_12 : labellerEdgesWF Generated.p
 theorem wf_tongue_ibug_19_to_tongue_ibug_19 : labellerWF Generated.tongue_ibug_19_to_tongue_ibug_19 = true := by decide +kernel
 theorem edges_tongue_ibug_19_to_tongue_ibug_19 : labellerEdgesWF Generated.tongue_ibug_19_to_tongue_ibug_19 = true := by decide +kernel
 
+theorem res_car_streetscene_20_to_car_streetscene_view_0_8 : Generated.res_car_streetscene_20_to_car_streetscene_view_0_8 = expectedEntry Generated.f_car_streetscene_20_to_car_streetscene_view_0_8 := by decide +kernel
+theorem res_car_streetscene_20_to_car_streetscene_view_1_14 : Generated.res_car_streetscene_20_to_car_streetscene_view_1_14 = expectedEntry Generated.f_car_streetscene_20_to_car_streetscene_view_1_14 := by decide +kernel
+theorem res_car_streetscene_20_to_car_streetscene_view_2_10 : Generated.res_car_streetscene_20_to_car_streetscene_view_2_10 = expectedEntry Generated.f_car_streetscene_20_to_car_streetscene_view_2_10 := by decide +kernel
+theorem res_car_streetscene_20_to_car_streetscene_view_3_14 : Generated.res_car_streetscene_20_to_car_streetscene_view_3_14 = expectedEntry Generated.f_car_streetscene_20_to_car_streetscene_view_3_14 := by decide +kernel
+theorem res_car_streetscene_20_to_car_streetscene_view_4_14 : Generated.res_car_streetscene_20_to_car_streetscene_view_4_14 = expectedEntry Generated.f_car_streetscene_20_to_car_streetscene_view_4_14 := by decide +kernel
+theorem res_car_streetscene_20_to_car_streetscene_view_5_10 : Generated.res_car_streetscene_20_to_car_streetscene_view_5_10 = expectedEntry Generated.f_car_streetscene_20_to_car_streetscene_view_5_10 := by decide +kernel
+theorem res_car_streetscene_20_to_car_streetscene_view_6_14 : Generated.res_car_streetscene_20_to_car_streetscene_view_6_14 = expectedEntry Generated.f_car_streetscene_20_to_car_streetscene_view_6_14 := by decide +kernel
+theorem res_car_streetscene_20_to_car_streetscene_view_7_8 : Generated.res_car_streetscene_20_to_car_streetscene_view_7_8 = expectedEntry Generated.f_car_streetscene_20_to_car_streetscene_view_7_8 := by decide +kernel
+theorem res_eye_ibug_close_17_to_eye_ibug_close_17 : Generated.res_eye_ibug_close_17_to_eye_ibug_close_17 = expectedEntry Generated.f_eye_ibug_close_17_to_eye_ibug_close_17 := by decide +kernel
+theorem res_eye_ibug_close_17_to_eye_ibug_close_17_trimesh : Generated.res_eye_ibug_close_17_to_eye_ibug_close_17_trimesh = expectedEntry Generated.f_eye_ibug_close_17_to_eye_ibug_close_17_trimesh := by decide +kernel
+theorem res_eye_ibug_open_38_to_eye_ibug_open_38 : Generated.res_eye_ibug_open_38_to_eye_ibug_open_38 = expectedEntry Generated.f_eye_ibug_open_38_to_eye_ibug_open_38 := by decide +kernel
+theorem res_eye_ibug_open_38_to_eye_ibug_open_38_trimesh : Generated.res_eye_ibug_open_38_to_eye_ibug_open_38_trimesh = expectedEntry Generated.f_eye_ibug_open_38_to_eye_ibug_open_38_trimesh := by decide +kernel
+theorem res_face_bu3dfe_83_to_face_bu3dfe_83 : Generated.res_face_bu3dfe_83_to_face_bu3dfe_83 = expectedEntry Generated.f_face_bu3dfe_83_to_face_bu3dfe_83 := by decide +kernel
+theorem res_face_ibug_49_to_face_ibug_49 : Generated.res_face_ibug_49_to_face_ibug_49 = expectedEntry Generated.f_face_ibug_49_to_face_ibug_49 := by decide +kernel
+theorem res_face_ibug_68_mirrored_to_face_ibug_68 : Generated.res_face_ibug_68_mirrored_to_face_ibug_68 = expectedEntry Generated.f_face_ibug_68_mirrored_to_face_ibug_68 := by decide +kernel
+theorem res_face_ibug_68_to_face_ibug_49 : Generated.res_face_ibug_68_to_face_ibug_49 = expectedEntry Generated.f_face_ibug_68_to_face_ibug_49 := by decide +kernel
+theorem res_face_ibug_68_to_face_ibug_49_trimesh : Generated.res_face_ibug_68_to_face_ibug_49_trimesh = expectedEntry Generated.f_face_ibug_68_to_face_ibug_49_trimesh := by decide +kernel
+theorem res_face_ibug_68_to_face_ibug_51 : Generated.res_face_ibug_68_to_face_ibug_51 = expectedEntry Generated.f_face_ibug_68_to_face_ibug_51 := by decide +kernel
+theorem res_face_ibug_68_to_face_ibug_51_trimesh : Generated.res_face_ibug_68_to_face_ibug_51_trimesh = expectedEntry Generated.f_face_ibug_68_to_face_ibug_51_trimesh := by decide +kernel
+theorem res_face_ibug_68_to_face_ibug_65 : Generated.res_face_ibug_68_to_face_ibug_65 = expectedEntry Generated.f_face_ibug_68_to_face_ibug_65 := by decide +kernel
+theorem res_face_ibug_68_to_face_ibug_66 : Generated.res_face_ibug_68_to_face_ibug_66 = expectedEntry Generated.f_face_ibug_68_to_face_ibug_66 := by decide +kernel
+theorem res_face_ibug_68_to_face_ibug_66_trimesh : Generated.res_face_ibug_68_to_face_ibug_66_trimesh = expectedEntry Generated.f_face_ibug_68_to_face_ibug_66_trimesh := by decide +kernel
+theorem res_face_ibug_68_to_face_ibug_68 : Generated.res_face_ibug_68_to_face_ibug_68 = expectedEntry Generated.f_face_ibug_68_to_face_ibug_68 := by decide +kernel
+theorem res_face_ibug_68_to_face_ibug_68_trimesh : Generated.res_face_ibug_68_to_face_ibug_68_trimesh = expectedEntry Generated.f_face_ibug_68_to_face_ibug_68_trimesh := by decide +kernel
+theorem res_face_imm_58_to_face_imm_58 : Generated.res_face_imm_58_to_face_imm_58 = expectedEntry Generated.f_face_imm_58_to_face_imm_58 := by decide +kernel
+theorem res_face_lfpw_29_to_face_lfpw_29 : Generated.res_face_lfpw_29_to_face_lfpw_29 = expectedEntry Generated.f_face_lfpw_29_to_face_lfpw_29 := by decide +kernel
+theorem res_hand_ibug_39_to_hand_ibug_39 : Generated.res_hand_ibug_39_to_hand_ibug_39 = expectedEntry Generated.f_hand_ibug_39_to_hand_ibug_39 := by decide +kernel
+theorem res_pose_flic_11_to_pose_flic_11 : Generated.res_pose_flic_11_to_pose_flic_11 = expectedEntry Generated.f_pose_flic_11_to_pose_flic_11 := by decide +kernel
+theorem res_pose_human36M_32_to_pose_human36M_17 : Generated.res_pose_human36M_32_to_pose_human36M_17 = expectedEntry Generated.f_pose_human36M_32_to_pose_human36M_17 := by decide +kernel
+theorem res_pose_human36M_32_to_pose_human36M_32 : Generated.res_pose_human36M_32_to_pose_human36M_32 = expectedEntry Generated.f_pose_human36M_32_to_pose_human36M_32 := by decide +kernel
+theorem res_pose_lsp_14_to_pose_lsp_14 : Generated.res_pose_lsp_14_to_pose_lsp_14 = expectedEntry Generated.f_pose_lsp_14_to_pose_lsp_14 := by decide +kernel
+theorem res_pose_stickmen_12_to_pose_stickmen_12 : Generated.res_pose_stickmen_12_to_pose_stickmen_12 = expectedEntry Generated.f_pose_stickmen_12_to_pose_stickmen_12 := by decide +kernel
+theorem res_tongue_ibug_19_to_tongue_ibug_19 : Generated.res_tongue_ibug_19_to_tongue_ibug_19 = expectedEntry Generated.f_tongue_ibug_19_to_tongue_ibug_19 := by decide +kernel
+
 /-- all of them at once, in the form the property theorems consume -/
-theorem all_wf : ∀ p ∈ Generated.all, labellerWF p.2 = true := by decide +kernel
+theorem all_wf : ∀ p ∈ Generated.all, labellerWF p.2 = true := by
+  intro p hp
+  simp only [Generated.all, List.mem_cons, List.not_mem_nil, or_false] at hp
+  rcases hp with rfl | rfl | rfl | rfl | rfl | rfl | rfl | rfl | rfl | rfl | rfl | rfl | rfl | rfl | rfl | rfl | rfl | rfl | rfl | rfl | rfl | rfl | rfl | rfl | rfl | rfl | rfl | rfl | rfl | rfl | rfl | rfl | rfl
+  · exact wf_car_streetscene_20_to_car_streetscene_view_0_8
+  · exact wf_car_streetscene_20_to_car_streetscene_view_1_14
+  · exact wf_car_streetscene_20_to_car_streetscene_view_2_10
+  · exact wf_car_streetscene_20_to_car_streetscene_view_3_14
+  · exact wf_car_streetscene_20_to_car_streetscene_view_4_14
+  · exact wf_car_streetscene_20_to_car_streetscene_view_5_10
+  · exact wf_car_streetscene_20_to_car_streetscene_view_6_14
+  · exact wf_car_streetscene_20_to_car_streetscene_view_7_8
+  · exact wf_eye_ibug_close_17_to_eye_ibug_close_17
+  · exact wf_eye_ibug_close_17_to_eye_ibug_close_17_trimesh
+  · exact wf_eye_ibug_open_38_to_eye_ibug_open_38
+  · exact wf_eye_ibug_open_38_to_eye_ibug_open_38_trimesh
+  · exact wf_face_bu3dfe_83_to_face_bu3dfe_83
+  · exact wf_face_ibug_49_to_face_ibug_49
+  · exact wf_face_ibug_68_mirrored_to_face_ibug_68
+  · exact wf_face_ibug_68_to_face_ibug_49
+  · exact wf_face_ibug_68_to_face_ibug_49_trimesh
+  · exact wf_face_ibug_68_to_face_ibug_51
+  · exact wf_face_ibug_68_to_face_ibug_51_trimesh
+  · exact wf_face_ibug_68_to_face_ibug_65
+  · exact wf_face_ibug_68_to_face_ibug_66
+  · exact wf_face_ibug_68_to_face_ibug_66_trimesh
+  · exact wf_face_ibug_68_to_face_ibug_68
+  · exact wf_face_ibug_68_to_face_ibug_68_trimesh
+  · exact wf_face_imm_58_to_face_imm_58
+  · exact wf_face_lfpw_29_to_face_lfpw_29
+  · exact wf_hand_ibug_39_to_hand_ibug_39
+  · exact wf_pose_flic_11_to_pose_flic_11
+  · exact wf_pose_human36M_32_to_pose_human36M_17
+  · exact wf_pose_human36M_32_to_pose_human36M_32
+  · exact wf_pose_lsp_14_to_pose_lsp_14
+  · exact wf_pose_stickmen_12_to_pose_stickmen_12
+  · exact wf_tongue_ibug_19_to_tongue_ibug_19
+
+/-- `funcs` wraps exactly the tabulated labellers, in the same order -/
+theorem funcs_all : Generated.funcs.map (fun f => (f.name, f.table)) = Generated.all := by decide +kernel
+
+theorem funcs_cls : ∀ f ∈ Generated.funcs, f.cls ≠ .other := by decide +kernel
+
+/-- the resolution table as a whole is the model's -/
+theorem resolution_ok : Generated.resolution = Generated.funcs.map expectedEntry := by
+  simp only [Generated.resolution, Generated.funcs, List.map_cons, List.map_nil, res_car_streetscene_20_to_car_streetscene_view_0_8, res_car_streetscene_20_to_car_streetscene_view_1_14, res_car_streetscene_20_to_car_streetscene_view_2_10, res_car_streetscene_20_to_car_streetscene_view_3_14, res_car_streetscene_20_to_car_streetscene_view_4_14, res_car_streetscene_20_to_car_streetscene_view_5_10, res_car_streetscene_20_to_car_streetscene_view_6_14, res_car_streetscene_20_to_car_streetscene_view_7_8, res_eye_ibug_close_17_to_eye_ibug_close_17, res_eye_ibug_close_17_to_eye_ibug_close_17_trimesh, res_eye_ibug_open_38_to_eye_ibug_open_38, res_eye_ibug_open_38_to_eye_ibug_open_38_trimesh, res_face_bu3dfe_83_to_face_bu3dfe_83, res_face_ibug_49_to_face_ibug_49, res_face_ibug_68_mirrored_to_face_ibug_68, res_face_ibug_68_to_face_ibug_49, res_face_ibug_68_to_face_ibug_49_trimesh, res_face_ibug_68_to_face_ibug_51, res_face_ibug_68_to_face_ibug_51_trimesh, res_face_ibug_68_to_face_ibug_65, res_face_ibug_68_to_face_ibug_66, res_face_ibug_68_to_face_ibug_66_trimesh, res_face_ibug_68_to_face_ibug_68, res_face_ibug_68_to_face_ibug_68_trimesh, res_face_imm_58_to_face_imm_58, res_face_lfpw_29_to_face_lfpw_29, res_hand_ibug_39_to_hand_ibug_39, res_pose_flic_11_to_pose_flic_11, res_pose_human36M_32_to_pose_human36M_17, res_pose_human36M_32_to_pose_human36M_32, res_pose_lsp_14_to_pose_lsp_14, res_pose_stickmen_12_to_pose_stickmen_12, res_tongue_ibug_19_to_tongue_ibug_19]
+
+/-- the only set whose iteration order the anchored code observes is the whitelisted one (inside a `raise`) -/
+theorem orderSites_ok : orderSitesOf Generated.setSites = expectedOrderSites := by decide +kernel
+
+/-- `validate_input` refuses exactly the inputs whose number of points differs from the expected one -/
+theorem validateGuard_ok : Generated.validateGuard = expectedValidateGuard := by decide
+
+/-- no labelling function can look at a coordinate; each validates exactly the size of its table -/
+theorem labScan_ok : labScanOK Generated.labScan Generated.funcs = true := by decide +kernel
 
 /-- the labeller clause of the property for every index-based labeller the live module exports: wrong sizes
 are rejected, the labeller commutes with every map of the points, output point `j` is input point `ind[j]`
@@ -85,5 +179,62 @@ theorem live_labellers {α β : Type} : ∀ p ∈ Generated.all, ∀ (xs : List 
   fun p hp xs => ⟨(labeller_size p.2 xs).1, fun f => labeller_commutes p.2 f xs, fun g h =>
     have r := labeller_reindexes p.2 (all_wf p hp) xs g h
     ⟨r.1, r.2.1, r.2.2, (labeller_all_labelled p.2 (all_wf p hp) xs g h).1⟩⟩
+
+/-- **the gather theorem instantiated for every regenerated table**: on every input the labelled result of every
+live labeller carries the labels of its table in the table's order, the mask of each label is true exactly at
+the output positions the table lists, the points under the label are the input points `ind[j]`, `j` in the
+label's list, and the connectivity is the table's -/
+theorem live_labellers_masks {α : Type} : ∀ p ∈ Generated.all, ∀ (xs : List α) (g : LGraph α),
+    p.2.apply xs = .ok g →
+    g.names = p.2.labels.map Prod.fst ∧ g.edges = p.2.edges ∧
+    ∀ l ix, (l, ix) ∈ p.2.labels →
+      lookup g.labels l = some (indexMask p.2.ind.length ix) ∧
+      (∀ j, (indexMask p.2.ind.length ix)[j]? = some true ↔ j < g.pts.length ∧ j ∈ ix) ∧
+      (∀ j ∈ ix, j < p.2.ind.length ∧
+        (maskFilter g.pts (indexMask p.2.ind.length ix))[rank (indexMask p.2.ind.length ix) j]? =
+          xs[p.2.ind[j]!]?) ∧
+      (∀ k, k < (maskFilter g.pts (indexMask p.2.ind.length ix)).length →
+        ∃ j ∈ ix, rank (indexMask p.2.ind.length ix) j = k) :=
+  fun p hp xs g h =>
+    have m := labeller_masks p.2 (all_wf p hp) xs g h
+    ⟨m.1, (labeller_apply_ok h).2.2.1, fun l ix hm =>
+      have q := labeller_label_points p.2 (all_wf p hp) xs g h l ix hm
+      ⟨(m.2 l ix hm).1, (m.2 l ix hm).2, q.1, q.2⟩⟩
+
+/-- the label index lists of every table are strictly increasing -/
+theorem all_sorted : ∀ p ∈ Generated.all, labelsSortedB p.2 = true := by decide +kernel
+
+/-- **the gather form, for every live labeller and every one of its labels**: on every input the points under
+label `l` are the input points gathered through `ix.map ind` -/
+theorem live_labellers_gather {α : Type} : ∀ p ∈ Generated.all, ∀ (xs : List α) (g : LGraph α),
+    p.2.apply xs = .ok g → ∀ l ix, (l, ix) ∈ p.2.labels →
+      maskFilter g.pts (indexMask p.2.ind.length ix) = gather xs (ix.map (p.2.ind[·]!)) :=
+  fun p hp xs g h l ix hm =>
+    (labeller_get_label_gather p.2 (all_wf p hp) (all_sorted p hp) xs g h l ix hm).1
+
+/-- every live labelling function, through `labeller_func`'s wrapper and through `labeller()`: whatever kind of
+input carries the points the result is the same; a wrong size is a `LabellingError`; `labeller()` on a
+well-formed manager raises only for a missing group / an ambiguous `None` / a wrong size, and when it succeeds
+it changes exactly the key `group_label` -/
+theorem live_entry {α : Type} : ∀ f ∈ Generated.funcs,
+    labellerWF f.table = true ∧
+    (∀ (x y : LabIn α) rm, x.pts = y.pts → f.call x rm = f.call y rm) ∧
+    (∀ (x : LabIn α) rm, x.pts.length ≠ f.table.nExpected → f.call x rm = .error .labelling) ∧
+    (∀ (m m' : Manager α) grp, relabel m grp f = .ok m' →
+      (∀ k, k ≠ f.groupLabel → m'.get k = m.get k) ∧
+      m'.keys = (if f.groupLabel ∈ m.keys then m.keys else m.keys ++ [f.groupLabel])) ∧
+    (∀ (m : Manager α), ManagerWF m → ∀ grp e, relabel m grp f = .error e ↔
+      (m.getItem grp = .error e) ∨
+      (∃ s, m.getItem grp = .ok s ∧ s.g.pts.length ≠ f.table.nExpected ∧ e = .labelling)) :=
+  fun f hf =>
+    have hw : labellerWF f.table = true := by
+      have : (f.name, f.table) ∈ Generated.all := by
+        rw [← funcs_all]; exact List.mem_map.mpr ⟨f, hf, rfl⟩
+      exact all_wf _ this
+    ⟨hw, fun x y rm h => call_kind_independent f x y rm h, fun x rm h => (call_spec f x rm).1 h,
+     fun m m' grp h => by
+       obtain ⟨_, _, _, _, _, _, hk, hkeys⟩ := relabel_spec h
+       exact ⟨hk, hkeys⟩,
+     fun m hm grp e => relabel_error_iff m hm grp f (funcs_cls f hf) e⟩
 
 end MenpoModel.C15.GenProps
